@@ -245,6 +245,30 @@ func (w *hsWorker) build() {
 		}
 		return c, vs
 	})
+	// the first consumer on the shared connection is stopped; the second one is re-scheduled
+	ptx := func(name string, mk func(x *hsNode) sdk.Msg) {
+		w.tab.Add(name, func(n engine.Node) (engine.Node, []V) {
+			x := n.(*hsNode)
+			msg := mk(x)
+			if msg == nil {
+				return nil, nil
+			}
+			c := x.clone()
+			c.touchP()
+			if r := c.P.Deliver(msg); r.Err != nil {
+				return nil, nil
+			}
+			return c, w.bijection(c, name)
+		})
+	}
+	ptx("remove(c2)", func(*hsNode) sdk.Msg { return env.MsgRemoveConsumer(p.Users[0].Addr.String(), "2") })
+	ptx("update(c3,spawn=now)", func(x *hsNode) sdk.Msg {
+		if p.K.GetConsumerPhase(x.P.Ctx, "3") != providertypes.CONSUMER_PHASE_REGISTERED {
+			return nil
+		}
+		ci := env.ConsumerInit{Spawn: x.P.Time(), ConnID: w.zConn}
+		return &providertypes.MsgUpdateConsumer{Owner: p.Users[1].Addr.String(), ConsumerId: "3", InitializationParameters: ci.Params("cons-z")}
+	})
 	for _, h := range hops {
 		for _, order := range []channeltypes.Order{channeltypes.ORDERED, channeltypes.UNORDERED} {
 			for _, port := range []string{ccv.ProviderPortID, "transfer"} {
